@@ -12,6 +12,7 @@ pub struct PruningCursor<C: Cursor> {
     cursor: C,
     timestamp: u64,
     skip_key: Option<Vec<u8>>,
+    retain_tombstones: bool,
 }
 
 impl<C: Cursor> PruningCursor<C> {
@@ -22,7 +23,18 @@ impl<C: Cursor> PruningCursor<C> {
             cursor,
             timestamp,
             skip_key: None,
+            retain_tombstones: false,
         })
+    }
+
+    /// Create a new pruning cursor that returns a key's tombstone when that is its latest version.
+    ///
+    /// Use this for one component of several that get merged and pruned again:  the tombstone must
+    /// survive to shadow the key's older versions in the other components.
+    pub fn with_tombstones(cursor: C, timestamp: u64) -> Result<Self, SError> {
+        let mut cursor = Self::new(cursor, timestamp)?;
+        cursor.retain_tombstones = true;
+        Ok(cursor)
     }
 
     fn set_skip_key(&mut self) {
@@ -58,7 +70,7 @@ impl<C: Cursor> Cursor for PruningCursor<C> {
                     return Ok(());
                 }
             };
-            if kr.timestamp <= self.timestamp && self.value().is_none() {
+            if kr.timestamp <= self.timestamp && self.value().is_none() && !self.retain_tombstones {
                 self.set_skip_key();
             } else if kr.timestamp <= self.timestamp
                 && (self.skip_key.is_none() || self.skip_key.as_ref().unwrap() != kr.key)
@@ -158,7 +170,7 @@ impl<C: Cursor> Cursor for PruningCursor<C> {
             assert!(kr.key == target_key);
             // If it's not a tombstone, return the value (and skip it next time)
             // Otherwise, just skip it.
-            if self.value().is_some() {
+            if self.value().is_some() || self.retain_tombstones {
                 self.set_skip_key();
                 return Ok(());
             } else {
@@ -176,7 +188,7 @@ impl<C: Cursor> Cursor for PruningCursor<C> {
                     return Ok(());
                 }
             };
-            if kr.timestamp <= self.timestamp && self.value().is_none() {
+            if kr.timestamp <= self.timestamp && self.value().is_none() && !self.retain_tombstones {
                 self.set_skip_key();
             } else if kr.timestamp <= self.timestamp
                 && (self.skip_key.is_none()
